@@ -40,6 +40,8 @@ class DenseTimeInterpreter(TimeInterpreter):
             else:
                 b_unit = self.ast.unit
                 e_unit = self.ast.unit
+        elif len(node.end_unit) == 0:
+            e_unit = node.begin_unit
 
         b = b * (self.ast.U[b_unit] / self.ast.U[self.ast.unit])
         e = e * (self.ast.U[e_unit] / self.ast.U[self.ast.unit])
